@@ -196,3 +196,74 @@ Section Constructed.
       destruct C0 as [C0|[n [Hn Hi]]]; [left; exact C0 | right; exists n; split; [exact Hn | intro K; apply Hi; apply (proj2 (mkset_in X Heq Hperm _ _)); exact K]].
   Qed.
 End Constructed.
+
+(* ---- the same SET of types built twice (any supply orders): exclusive walks coincide *)
+Section SameSet.
+  Context {T D St L F : Type} (X : ctx T D St L F).
+  Notation eqb := (T_eqb X).
+  Hypothesis Heq : forall a b, eqb a b = true <-> a = b.
+  Variables (g1 g2 : graph T D St).
+  Hypothesis Hnodes : forall t, In t (g_nodes g1) <-> In t (g_nodes g2).
+  Hypothesis Hk1 : adj_keys_nodup eqb g1.
+  Hypothesis Hk2 : adj_keys_nodup eqb g2.
+  Hypothesis Hedges : forall u v, edge_at eqb g1 u v = edge_at eqb g2 u v.
+
+  Lemma same_sim : forall t es1, succ_of X g1 t = Ok es1 ->
+    exists es1' es2, Permutation es1 es1' /\ succ_of X g2 t = Ok es2 /\ Forall2 edge_equiv es1' es2.
+  Proof.
+    intros t es1 E. unfold succ_of in E.
+    destruct (g_successors eqb g1 t) as [ns|e] eqn:Es; cbn [bind ret] in E; [|discriminate]. inversion E; subst es1. clear E.
+    assert (Ht : In t (g_nodes g1)).
+    { unfold g_successors, g_has_node in Es. destruct (memb eqb t (g_nodes g1)) eqn:M; [apply (memb_In eqb Heq); exact M | discriminate]. }
+    rewrite (successors_spec eqb Heq g1 t Ht) in Es. inversion Es; subst ns. clear Es.
+    set (k1 := map fst (adj_of eqb g1 t)). set (k2 := map fst (adj_of eqb g2 t)).
+    assert (P : Permutation k1 k2).
+    { apply NoDup_Permutation; [apply Hk1 | apply Hk2|]. intro v. unfold k1, k2. rewrite !(key_in_iff eqb Heq), Hedges. tauto. }
+    exists (map (edge_of X g1 t) k2), (map (edge_of X g2 t) k2). split; [apply Permutation_map; exact P|].
+    split; [apply (succ_of_spec X Heq); apply Hnodes; exact Ht|].
+    assert (Eg : forall v, g_edge eqb g1 t v = g_edge eqb g2 t v).
+    { intro v. rewrite (g_edge_edge_at eqb Heq g1 t v Ht), (g_edge_edge_at eqb Heq g2 t v (proj1 (Hnodes t) Ht)), Hedges. reflexivity. }
+    clear P. induction k2 as [|v l IH]; simpl; constructor; [|exact IH].
+    unfold edge_of. split; [reflexivity|]. split; intros d st; cbn [e_guard e_trans]; rewrite Eg; reflexivity.
+  Qed.
+
+  Theorem same_set_same_walks t d st path out :
+    xwalks (succ_of X g1) t d st path out -> xwalks (succ_of X g2) t d st path out.
+  Proof. exact (xwalks_sim (succ_of X g1) (succ_of X g2) same_sim t d st path out). Qed.
+End SameSet.
+
+Section ConstructedOrder.
+  Context {T D St L F : Type} (X : ctx T D St L F) (rk : T -> nat) (H : table_ok X rk).
+
+  (* two closed lists holding the same types, in any supply orders: both typesets are built and every exclusive walk
+     of one - over the full relation graph (infer) or the identity graph (detect) - is an exclusive walk of the other,
+     with the same data, path and state *)
+  Theorem constructed_order_independent types1 types2 w1 w2 :
+    closed X types1 -> (forall t, In t types1 <-> In t types2) ->
+    exists ts1 ts2 w1' w2',
+      VT_init X (VT_blank X) types1 w1 = Ok (tt, ts1, w1') /\
+      VT_init X (VT_blank X) types2 w2 = Ok (tt, ts2, w2') /\
+      (forall t d st path out, xwalks (succ_of X (relation_graph ts1)) t d st path out <-> xwalks (succ_of X (relation_graph ts2)) t d st path out) /\
+      (forall t d st path out, xwalks (succ_of X (base_graph ts1)) t d st path out <-> xwalks (succ_of X (base_graph ts2)) t d st path out).
+  Proof.
+    intros Hc Hmem. assert (Hc2 : closed X types2) by (apply (closed_ext X types1); assumption).
+    destruct H as [Heq [Hty [Hperm [Hgen [HG [Huniq [Hone Hrk]]]]]]].
+    destruct Hc as [G1 P1]. destruct Hc2 as [G2 P2].
+    destruct (typeset_well_formed X rk Heq Hty Hperm Hgen HG Huniq Hone Hrk types1 w1 G1 P1) as [ts1 [w1' [E1 W1]]].
+    destruct (typeset_well_formed X rk Heq Hty Hperm Hgen HG Huniq Hone Hrk types2 w2 G2 P2) as [ts2 [w2' [E2 W2]]].
+    exists ts1, ts2, w1', w2'. split; [exact E1|]. split; [exact E2|].
+    assert (Hm : forall t, In t (mkset X types1) <-> In t (mkset X types2)) by (intro t; rewrite !(mkset_in X Heq Hperm); apply Hmem).
+    destruct (result_determined_by_type_set X rk _ _ _ _ _ _ _ _ W1 W2 Hm) as [_ [Erel Ebase]].
+    destruct (wf_graph _ _ _ _ _ _ W1) as [_ [K1 K1b]]. destruct (wf_graph _ _ _ _ _ _ W2) as [_ [K2 K2b]].
+    assert (Nrel : forall t, In t (g_nodes (relation_graph ts1)) <-> In t (g_nodes (relation_graph ts2))).
+    { intro t. rewrite (wf_nodes _ _ _ _ _ _ W1), (wf_nodes _ _ _ _ _ _ W2). apply Hm. }
+    assert (Nbase : forall v, In v (g_nodes (base_graph ts1)) <-> In v (g_nodes (base_graph ts2))).
+    { intro v. rewrite (wf_base_nodes_gen _ _ _ _ _ _ W1 v), (wf_base_nodes_gen _ _ _ _ _ _ W2 v).
+      split; (intros [[u [a E]]|[u [a E]]]; [left | right]; exists u, a); rewrite ?Ebase in *; try exact E; rewrite Ebase; exact E. }
+    split; intros t d st path out; split.
+    - apply (same_set_same_walks X Heq _ _ Nrel K1 K2 Erel).
+    - apply (same_set_same_walks X Heq _ _ (fun t => iff_sym (Nrel t)) K2 K1 (fun u v => eq_sym (Erel u v))).
+    - apply (same_set_same_walks X Heq _ _ Nbase K1b K2b Ebase).
+    - apply (same_set_same_walks X Heq _ _ (fun t => iff_sym (Nbase t)) K2b K1b (fun u v => eq_sym (Ebase u v))).
+  Qed.
+End ConstructedOrder.
